@@ -24,7 +24,7 @@ META = {
               "noise_voltage -> the real function evaluated with real NumPy on the concrete band (float island)", "np.random.uniform -> symbolic draws (shared between the two runs that are compared)"],
     "assumptions": ["REAL mode", "decay altitude and decay length are related as produced upstream (C07): (alt+R)^2 = R^2 + l^2 + 2 R l sin(beta); lenDec > 0; path length > 0; view angle in (0, pi/2)"],
 }
-LEDGER = {"quick": 200, "thorough": 300}
+LEDGER = {"quick": 215, "thorough": 300}
 
 
 def _load_antenna(band, h_obs):
@@ -321,26 +321,39 @@ def replay(v):
         cfg = NssConfig()
         cfg.detector.initial_position.altitude = 525.0 if "525" in job else 33.0
         er = EASRadio(cfg)
-        beta = np.array([0.1, 0.2])
-        ln = np.array([30.0, 400.0])
+        N = int(job.split("N=")[1].split(",")[0])
         Re = 6378.1
-        alt = np.sqrt(Re**2 + ln**2 + 2 * Re * ln * np.sin(beta)) - Re
-        th, pl, E = np.array([0.9, 1.0]), np.array([2000.0, 2100.0]), np.array([0.5, 2.0])
         k = m.get("k", 3.0)
-        with np.errstate(all="ignore"):
-            np.random.seed(4)
-            F1 = er(beta, alt, ln, th, pl, E)
-            np.random.seed(4)
-            F2 = er(beta, alt, ln, th, pl, k * E)
         bad = None
-        if "linear in shower energy" in ob and not np.allclose(F2, k * F1, rtol=1e-9, atol=0):
-            bad = "field is not linear in the shower energy"
-        if "exactly zero" in ob and np.any(F1[alt > 10] != 0):
-            bad = f"non-zero field for a decay at {alt[alt>10]} km"
-        if not np.all(np.isfinite(F1)):
-            bad = "non-finite field"
+        # the model's events first (decay altitude as the solver chose it), then a fixed ordinary batch
+        batches = []
+        if any(f"altDec{i}" in m for i in range(N)):
+            g = lambda n, d: np.array([float(m.get(f"{n}{i}", d)) for i in range(N)])  # noqa
+            batches.append((g("beta", 0.1), g("altDec", 5.0), g("lenDec", 30.0), g("theta", 0.9), g("pathLen", 2000.0), g("E", 1.0)))
+        b0, l0 = np.array([0.1, 0.2]), np.array([30.0, 400.0])
+        batches.append((b0, np.sqrt(Re**2 + l0**2 + 2 * Re * l0 * np.sin(b0)) - Re, l0, np.array([0.9, 1.0]), np.array([2000.0, 2100.0]), np.array([0.5, 2.0])))
+        for beta, alt, ln, th, pl, E in batches:
+            with np.errstate(all="ignore"):
+                np.random.seed(4)
+                F1 = er(beta, alt, ln, th, pl, E)
+                np.random.seed(4)
+                F2 = er(beta, alt, ln, th, pl, k * E)
+            out = (alt < 0) | (alt > 10)
+            if not np.all(np.isfinite(F1)):
+                bad = f"non-finite field for events with decay altitudes {alt.tolist()} km, emergence {beta.tolist()} rad (detector at {cfg.detector.initial_position.altitude} km): {F1[~np.isfinite(F1).all(axis=1)][0][:3].tolist()}..."
+            elif np.any(F1[out] != 0):
+                bad = f"non-zero field for a decay at {alt[out].tolist()} km"
+            elif "linear in shower energy" in ob and not np.allclose(F2, k * F1, rtol=1e-9, atol=0):
+                bad = "field is not linear in the shower energy"
+            if bad:
+                break
         if bad:
-            return {"reproduced": True, "key": "EASRadio: " + bad[:60], "detail": bad}
+            return {"reproduced": True, "key": "EASRadio: " + bad.split(" for ")[0][:60], "detail": bad}
+    if job == VALIDATE_JOB:
+        bad = _band_sequence_probe()
+        if bad:
+            return {"reproduced": True, "key": "RadioEFieldParams: field bins depend on the bands evaluated before", "detail": bad[0][1]}
+        return {"reproduced": False, "key": None, "detail": "band sequence probe passes"}
     if job.startswith("waveform_params"):
         return {"reproduced": True, "key": "radio parameter file bins misaligned", "detail": str(m)}
     return {"reproduced": False, "key": None, "detail": "no reproduction"}
@@ -364,7 +377,60 @@ def validate(seed, tier):
         E = [[v[f"E{i}_{b}"] for b in range(B)] for i in range(N)]
         return {"snr": _real_snr(E, band, v["nants1"])}
 
-    return harness.validate(snr_run(N, band), sampler, real, 40, seed, rel=1e-8)
+    n_ok = harness.validate(snr_run(N, band), sampler, real, 40, seed, rel=1e-8)
+    fails = [{"obligation": ob_, "verdict": "sat", "kind": "claim", "time_s": 0.0, "model": {}, "detail": det,
+              "reason": "assumption of the symbolic jobs about the stubbed parametrisation (a function of band and event only) is false on the real class (concrete probe)"}
+             for ob_, det in _band_sequence_probe()]
+    if isinstance(n_ok, tuple):
+        return n_ok[0], list(n_ok[1]) + fails
+    return (n_ok, fails) if fails else n_ok
+
+
+VALIDATE_JOB = "RadioEFieldParams (band sequence probe)"
+BAND_OB = "field bins of a band do not depend on which bands were evaluated before in the same process (count and centres == arange(lo, hi, 10) + 5)"
+
+
+def _band_sequence_probe():
+    """The EASRadio job replaces RadioEFieldParams by a per-band uninterpreted function and the bin job reads
+    the parameter file directly; both assume that the real class selects its bins from ITS OWN band.  Probe:
+    several bands one after the other in one process, each compared with the selection computed from the file."""
+    import warnings
+
+    import numpy as np
+
+    from nuspacesim.simulation.eas_radio.radio import RadioEFieldParams
+
+    warnings.simplefilter("ignore")
+    zen, view, h = np.array([60.0, 75.0, 85.0]), np.array([0.5, 1.0, 1.5]), np.array([0.0, 2.0, 4.0])
+    bad = []
+    for lo, hi in ((30, 300), (100, 370), (300, 1000), (30, 80), (30, 300)):
+        rp = RadioEFieldParams((lo, hi))
+        try:
+            F = np.asarray(rp(zen, view, h))
+        except Exception as ex:  # noqa
+            bad.append((BAND_OB, f"band {lo}-{hi} MHz after earlier bands: {type(ex).__name__}: {ex}"))
+            break
+        want = (hi - lo) // 10
+        if F.shape != (3, want):
+            bad.append((BAND_OB, f"band {lo}-{hi} MHz evaluated after other bands returns {F.shape[1]} bins per event, the voltage/noise grid has {want}"))
+            break
+        # the same band through a freshly loaded copy of the module (no history)
+        import importlib
+        import sys
+
+        mod = sys.modules["nuspacesim.simulation.eas_radio.radio"]
+        spec = importlib.util.spec_from_file_location("_c20_fresh_radio", mod.__file__, submodule_search_locations=None)
+        fresh = importlib.util.module_from_spec(spec)
+        fresh.__package__ = mod.__package__
+        spec.loader.exec_module(fresh)
+        F0 = np.asarray(fresh.RadioEFieldParams((lo, hi))(zen, view, h))
+        if F0.shape != F.shape or not np.array_equal(F0, F, equal_nan=True):
+            bad.append((BAND_OB, f"band {lo}-{hi} MHz evaluated after other bands gives {F[0, :3].tolist()}..., a fresh process gives {F0[0, :3].tolist()}... for the same events"))
+            break
+        cents = rp.ps[0][:, 0]
+        if int(np.isin(cents, np.arange(lo, hi, 10) + 5.0).sum()) != want:
+            bad.append((BAND_OB, f"parameter file has no {want} bins at the centres of band {lo}-{hi}"))
+    return bad
 
 
 MANIFEST_ENTRY = {
